@@ -583,6 +583,72 @@ func runPUB(c *Ctx) {
 
 func runCACHEKEY(c *Ctx) {
 	P := c.P
+	var checkKey func(fn *ssa.Function, at ssa.Instruction, keyV ssa.Value, ext string, depth int)
+	checkKey = func(fn *ssa.Function, at ssa.Instruction, keyV ssa.Value, ext string, depth int) {
+		pos := P.InstrPos(at)
+		what := ext + " in " + ir.FuncName(fn)
+		// the key handed in by the caller of a small cache helper (cachedNode(cacheKey)): decided at its call sites
+		if p, isP := ir.Strip(ir.ResolveCell(ir.Origin(keyV))).(*ssa.Parameter); isP && p.Parent() == fn && depth < 2 &&
+			fn.Parent() == nil && fn.Object() != nil && !fn.Object().Exported() && !c.Facts.addrTaken[fn] && len(P.Callers[fn]) > 0 {
+			for _, cs := range P.Callers[fn] {
+				args := cs.Common().Args
+				if paramIndex(p) < len(args) {
+					checkKey(cs.Parent(), cs, args[paramIndex(p)], ext+" (through "+fn.Name()+")", depth+1)
+				}
+			}
+			return
+		}
+		parts, fs, env := keyParts(ir.Origin(keyV))
+		if parts == nil {
+			c.Violation(fn, pos, ext+" key not built from (prefix, name)", "the cache key is not the store prefix joined with the node name (Sprintf or concatenation): a cache shared between stores can short-circuit a write or serve a node of another store")
+			return
+		}
+		// map values of a key-building helper back to the arguments it was called with
+		back := func(v ssa.Value) ssa.Value {
+			for i := 0; i < 4; i++ {
+				p, isP := ir.Strip(ir.ResolveCell(v)).(*ssa.Parameter)
+				if !isP || env[p] == nil {
+					break
+				}
+				v = env[p]
+			}
+			return v
+		}
+		// part 0: P.NodeURLPrefix() ; part 1: the name
+		pfx, _ := ir.Origin(back(parts[0])).(*ssa.Call)
+		if pfx == nil || !pfx.Call.IsInvoke() || pfx.Call.Method.Name() != "NodeURLPrefix" {
+			c.Violation(fn, pos, ext+" key without store prefix", "the first component of the cache key is not Persist.NodeURLPrefix(): nodes of different stores collide in a shared cache")
+			return
+		}
+		// the Persist value and name used for Load/Store in the same outer function
+		outer := ir.Outermost(fn)
+		matched, other := false, ""
+		for _, g := range append([]*ssa.Function{outer}, allAnon(outer)...) {
+			for _, cj := range CallsOf(g) {
+				e := c.Facts.External(cj)
+				if e != "Persist.Load" && e != "Persist.Store" {
+					continue
+				}
+				samePersist := ir.SameOrigin(cj.Common().Value, back(pfx.Call.Value))
+				sameName := ir.SameOrigin(cj.Common().Args[1], back(parts[1]))
+				if samePersist && sameName {
+					matched = true
+				} else if !samePersist {
+					other = "the prefix comes from a different Persist value than the one used for " + e
+				} else {
+					other = "the name in the key is not the name passed to " + e
+				}
+			}
+		}
+		if matched {
+			c.OK(pos, what, "key = Sprintf("+fs+", P.NodeURLPrefix(), name) with the same P and name as the Load/Store of "+ir.FuncName(outer), false)
+		} else {
+			if other == "" {
+				other = "no Persist.Load/Store in " + ir.FuncName(outer) + " to compare with"
+			}
+			c.Violation(fn, pos, ext+" key does not match the store access", other)
+		}
+	}
 	for _, fn := range P.Funcs {
 		if fn.Pkg.Pkg.Path() != ir.MastPath {
 			continue
@@ -592,58 +658,7 @@ func runCACHEKEY(c *Ctx) {
 			if !strings.HasPrefix(ext, "NodeCache.") {
 				continue
 			}
-			pos := P.InstrPos(ci)
-			what := ext + " in " + ir.FuncName(fn)
-			parts, fs, env := keyParts(ir.Origin(ci.Common().Args[0]))
-			if parts == nil {
-				c.Violation(fn, pos, ext+" key not built from (prefix, name)", "the cache key is not the store prefix joined with the node name (Sprintf or concatenation): a cache shared between stores can short-circuit a write or serve a node of another store")
-				continue
-			}
-			// map values of a key-building helper back to the arguments it was called with
-			back := func(v ssa.Value) ssa.Value {
-				for i := 0; i < 4; i++ {
-					p, isP := ir.Strip(ir.ResolveCell(v)).(*ssa.Parameter)
-					if !isP || env[p] == nil {
-						break
-					}
-					v = env[p]
-				}
-				return v
-			}
-			// part 0: P.NodeURLPrefix() ; part 1: the name
-			pfx, _ := ir.Origin(back(parts[0])).(*ssa.Call)
-			if pfx == nil || !pfx.Call.IsInvoke() || pfx.Call.Method.Name() != "NodeURLPrefix" {
-				c.Violation(fn, pos, ext+" key without store prefix", "the first component of the cache key is not Persist.NodeURLPrefix(): nodes of different stores collide in a shared cache")
-				continue
-			}
-			// the Persist value and name used for Load/Store in the same outer function
-			outer := ir.Outermost(fn)
-			matched, other := false, ""
-			for _, g := range append([]*ssa.Function{outer}, allAnon(outer)...) {
-				for _, cj := range CallsOf(g) {
-					e := c.Facts.External(cj)
-					if e != "Persist.Load" && e != "Persist.Store" {
-						continue
-					}
-					samePersist := ir.SameOrigin(cj.Common().Value, back(pfx.Call.Value))
-					sameName := ir.SameOrigin(cj.Common().Args[1], back(parts[1]))
-					if samePersist && sameName {
-						matched = true
-					} else if !samePersist {
-						other = "the prefix comes from a different Persist value than the one used for " + e
-					} else {
-						other = "the name in the key is not the name passed to " + e
-					}
-				}
-			}
-			if matched {
-				c.OK(pos, what, "key = Sprintf("+fs+", P.NodeURLPrefix(), name) with the same P and name as the Load/Store of "+ir.FuncName(outer), false)
-			} else {
-				if other == "" {
-					other = "no Persist.Load/Store in " + ir.FuncName(outer) + " to compare with"
-				}
-				c.Violation(fn, pos, ext+" key does not match the store access", other)
-			}
+			checkKey(fn, ci, ci.Common().Args[0], ext, 0)
 		}
 	}
 }
